@@ -60,16 +60,28 @@ fn main() {
             match prop {
                 "C15" => c15::corr(&mut ctx),
                 "C19" => c19::corr(&mut ctx),
+                "C19sweep" => c19::sweep(&mut ctx),
                 "C17" => c17::corr(&mut ctx),
                 "C18" => c18::corr(&mut ctx),
                 "C14" => c14::corr(&mut ctx),
                 "C20" => c20::corr(&mut ctx),
-                "C02" => c02::corr(&mut ctx),
-                "C04" => c04::corr(&mut ctx),
-                "DENS" => dens::corr(&mut ctx),
-                "ORD" => ord::corr(&mut ctx),
-                "SSK" => { ssk::corr_sets(&mut ctx); ssk::corr_merge(&mut ctx) }
-                "C19sweep" => c19::sweep(&mut ctx),
+                "C02" | "C01" => c02::corr(&mut ctx),
+                "C04" => {
+                    c04::corr_smh(&mut ctx);
+                    ssk::corr_sets(&mut ctx);
+                    dens::corr(&mut ctx)
+                }
+                "C03" => c04::corr_smh(&mut ctx),
+                "C05" => {
+                    ssk::corr_merge(&mut ctx);
+                    c04::corr_smh(&mut ctx)
+                }
+                "C09" | "C08" | "DENS" => dens::corr(&mut ctx),
+                "C11" | "C10" | "ORD" => ord::corr(&mut ctx),
+                "SSK" => {
+                    ssk::corr_sets(&mut ctx);
+                    ssk::corr_merge(&mut ctx)
+                }
                 _ => {
                     eprintln!("unknown property {}", prop);
                     std::process::exit(2);
